@@ -1,5 +1,5 @@
 CONSTANTS
-  MaxT = 4
+  MaxT = 3
   MaxP = 2
   Shards = 64
   AlphaSel = {1, 2, 3, 4, 5, 6}
